@@ -123,6 +123,11 @@ func RecoverPublicKey(signer types.Signer, tx types.Transaction) (PublicKeyI, er
 	var recoveryID byte
 	V := Vb.Uint64()
 	switch {
+	case tx.Type() != types.LegacyTxType && (!Vb.IsUint64() || V > 1):
+		// typed txs (EIP-2930, 1559, etc.) carry the bare recovery ID: V is not covered by the signature hash, and for a typed
+		// tx nothing else depends on it (a legacy tx derives its chain id from V), so the legacy encodings below would give one
+		// signature many accepted transactions
+		return nil, types.ErrInvalidSig
 	case V == 27 || V == 28:
 		recoveryID = byte(V - 27)
 	case V >= 35:
